@@ -155,7 +155,7 @@ async def kiq_case(asyncs, fail_at):
     return pr
 
 # ---------------------------------------------------------------- (d)
-def loop_case(start_off, horizon, oneshots, crons, failing_source, failing_send, slow_listing=0.0, host_offset_h=0.0, check_oneshots=None, stable_ids=False):
+def loop_case(start_off, horizon, oneshots, crons, failing_source, failing_send, slow_listing=0.0, host_offset_h=0.0, check_oneshots=None, stable_ids=False, entry='loop'):
     """oneshots: list of offsets (s) from BASE; crons: list of cron expressions"""
     import taskiq.cli.scheduler.run as run_mod
     from taskiq import TaskiqScheduler, ScheduleSource
@@ -170,6 +170,8 @@ def loop_case(start_off, horizon, oneshots, crons, failing_source, failing_send,
         def now(cls, tz=None):
             t = BASE + _dt.timedelta(seconds=loop.time())
             return t.astimezone(tz) if tz is not None else (t + _dt.timedelta(hours=host_offset_h)).replace(tzinfo=None)          # naive = the host's local wall clock
+        @classmethod
+        def utcnow(cls): return (BASE + _dt.timedelta(seconds=loop.time())).replace(tzinfo=None)
     real_dt = run_mod.datetime; run_mod.datetime = VDateTime
     sent = []
     class B(AsyncBroker):
@@ -198,7 +200,10 @@ def loop_case(start_off, horizon, oneshots, crons, failing_source, failing_send,
     sched = TaskiqScheduler(b, sources)
     async def main():
         await asyncio.sleep(start_off)
-        t = asyncio.ensure_future(run_mod.run_scheduler_loop(sched))
+        if entry == 'loop': t = asyncio.ensure_future(run_mod.run_scheduler_loop(sched))
+        else:          # the whole `taskiq scheduler` entry point: start-up of the sources, the optional skip of the first run, then the loop
+            from taskiq.cli.scheduler.args import SchedulerArgs
+            t = asyncio.ensure_future(run_mod.run_scheduler(SchedulerArgs(scheduler=sched, modules=[], configure_logging=False, skip_first_run=(entry == 'cli-skip-first-run'))))
         await asyncio.sleep(horizon - start_off); t.cancel()
         try: await t
         except asyncio.CancelledError: pass
@@ -253,6 +258,9 @@ def run(sc):
         for start_off, slow in ((59.7, 0.6), (30.0, 0.6), (59.9, 45.0)):          # a source whose listing takes time, started so that the listing straddles a minute boundary
             pr = loop_case(start_off, 330.0, [200.0], ['* * * * *'], False, False, slow_listing=slow); n += 1
             if pr: fails.append({'key': f"loop/start+{start_off}/slow-listing={slow}", 'failed_clauses': pr})
+        for start_off in (0.4, 30.0):          # through the `taskiq scheduler` entry point (default: the first poll happens at start)
+            pr = loop_case(start_off, 330.0, [start_off + 10.0, 90.0, 200.0], ['* * * * *'], False, False, entry='cli'); n += 1
+            if pr: fails.append({'key': f"run_scheduler/start+{start_off}", 'failed_clauses': pr})
         for off_h in (5.5, -8.0):          # a host whose local time is not UTC: naive datetime.now() differs from UTC there
             pr = loop_case(0.4, 330.0, [90.0, 200.0], ['* 12 * * *', '* 17 * * *', '* 4 * * *'], False, False, host_offset_h=off_h); n += 1
             if pr: fails.append({'key': f"loop/host-offset={off_h}", 'failed_clauses': pr})
